@@ -28,7 +28,9 @@ CONSTANTS
     GossipRound,                            \* heartbeat emits IHAVE, handleIHave asks, handleIWant answers
     RelayForwards,                          \* a relay-only node accepts and forwards
     HelloCarriesRelays,                     \* the hello packet announces relayed topics too
-    StrictSettled                           \* Publish waits for MeshSettled (FALSE: time-based settling only)
+    StrictSettled,                          \* Publish waits for MeshSettled (FALSE: time-based settling only)
+    Backpressure,                           \* TRUE: when a node changes its interest, any of its peers' outbound queues may be full
+    AnnounceLostAfterFull                   \* MUST-FAIL variant: announce() gives up at the first full queue (later peers get nothing, no retry)
 
 VARIABLES
     kind,        \* router type per node (chosen in Init, never changes)
@@ -43,10 +45,11 @@ VARIABLES
     pub,         \* pub[m] = publisher of m (DOMAIN pub = published messages)
     batch, batchFresh, sincePub,   \* the batch under way
     tick, quietFor, hbTodo,
-    nchurn
+    nchurn,
+    pend         \* <<n, p, k>>: RPC k (SUB / UNSUB / GRAFT / PRUNE) from n to p met a full outbound queue and awaits its retry
 
 vars == <<kind, conn, subs, relays, known, chan, mesh, fanout, backoff, seen, mcache,
-          delivered, pub, batch, batchFresh, sincePub, tick, quietFor, hbTodo, nchurn>>
+          delivered, pub, batch, batchFresh, sincePub, tick, quietFor, hbTodo, nchurn, pend>>
 
 Msgs  == 1..MaxPub
 Links == {l \in Nodes \X Nodes : l[1] # l[2]}
@@ -60,7 +63,7 @@ Int(n)    == Interested(subs, relays, n)
 IsG(n)    == kind[n] = "gossip"
 Peers(n)  == {m \in Nodes : {n, m} \in conn}
 GPeers(n) == {m \in known[n] : IsG(m)}      \* getPeers: topic peers speaking /meshsub
-AllQuiet  == hbTodo = {} /\ \A l \in Links : chan[l] = <<>>
+AllQuiet  == hbTodo = {} /\ pend = {} /\ \A l \in Links : chan[l] = <<>>
 \* "the meshes have settled (pending prune backoffs have expired and been swept and a few heartbeats
 \* have passed)": no backoff entry is left, and the next heartbeat of a joined gossipsub node would
 \* neither graft nor prune, and whoever is outside its mesh is within the exhaustive gossip fan-out.
@@ -73,7 +76,7 @@ MeshSettled ==
         /\ Int(n) => /\ Cardinality(mesh[n]) < Dhi
                      /\ Cardinality(mesh[n]) >= Dlo \/ GPeers(n) \subseteq mesh[n]
                      /\ Cardinality(GPeers(n) \ mesh[n]) <= Dlazy
-Settled   == /\ quietFor = SettleTicks /\ hbTodo = {} /\ (batchFresh \/ \A l \in Links : chan[l] = <<>>)
+Settled   == /\ quietFor = SettleTicks /\ hbTodo = {} /\ pend = {} /\ (batchFresh \/ \A l \in Links : chan[l] = <<>>)
              /\ (IF StrictSettled THEN MeshSettled ELSE TRUE)
 Quiescent == batch # {} /\ AllQuiet /\ sincePub = QuiesceTicks
 BoActive(v) == v > Slack + 1
@@ -99,7 +102,7 @@ InitCfg(k, c, ro) ==
     /\ seen = [n \in Nodes |-> {}] /\ mcache = [n \in Nodes |-> [m \in Msgs |-> 0]]
     /\ delivered = [n \in Nodes |-> [m \in Msgs |-> [s \in 1..MaxSubs |-> 0]]]
     /\ pub = <<>> /\ batch = {} /\ batchFresh = FALSE /\ sincePub = 0
-    /\ tick = 0 /\ quietFor = 0 /\ hbTodo = {} /\ nchurn = 0
+    /\ tick = 0 /\ quietFor = 0 /\ hbTodo = {} /\ nchurn = 0 /\ pend = {}
 
 Init == \E k \in [Nodes -> InitKinds], c \in SUBSET AllEdges, ro \in [Nodes -> Roles] : InitCfg(k, c, ro)
 
@@ -113,27 +116,59 @@ JoinChoices(n) ==
         need == IF Cardinality(keep) < D THEN Min(D - Cardinality(keep), Cardinality(elig)) ELSE 0
     IN {keep \cup X : X \in SubsetsOfSize(elig, need)}
 
+(* Backpressure (pubsub.announce, announceRetry, gossipsub sendRPC / pushControl): at the instant a node changes its
+   interest the outbound queue of any subset F of its peers may be full.  The announcement to such a peer is dropped and
+   re-sent by announceRetry (which re-checks the CURRENT interest) within a second; a GRAFT / PRUNE to such a peer is kept
+   and re-sent (if still current) by the next flush.  Delayed, never lost.  The retries are modelled as `pend` entries
+   that fire before the next heartbeat.
+   MUST-FAIL variant AnnounceLostAfterFull: the loop over the peers stops at the first full queue f (which still gets
+   its retry); L = the peers that come later in the (random) map order get neither announcement nor retry.          *)
+FullChoices(n) == IF Backpressure THEN SUBSET Peers(n) ELSE {{}}
+\* <<peers announced to at once, peers that get a retry>>
+AnnounceSplits(n, F) ==
+    IF F = {} THEN {<<Peers(n), {}>>}
+    ELSE IF ~AnnounceLostAfterFull THEN {<<Peers(n) \ F, F>>}
+    ELSE UNION {{<<Peers(n) \ L, {f}>> : L \in {X \in SUBSET Peers(n) : f \in X /\ F \subseteq X}} : f \in F}
+
 \* n becomes interested: announce to every peer, then (gossipsub) join and GRAFT
 BecomeInterested(n) ==
-    LET c1 == SendTo(chan, n, Peers(n), Pkt("SUB", {})) IN
+    \E F \in FullChoices(n) : \E sp \in AnnounceSplits(n, F) :
+    LET c1 == SendTo(chan, n, sp[1], Pkt("SUB", {}))
+        pa == {<<n, p, "SUB">> : p \in sp[2]}
+    IN
     IF IsG(n)
       THEN \E G \in JoinChoices(n) :
              /\ mesh' = [mesh EXCEPT ![n] = G]
              /\ fanout' = [fanout EXCEPT ![n] = {}]
-             /\ chan' = SendTo(c1, n, G, Pkt("GRAFT", {}))
+             /\ chan' = SendTo(c1, n, G \ F, Pkt("GRAFT", {}))
+             /\ pend' = pa \cup {<<n, p, "GRAFT">> : p \in G \cap F}
              /\ UNCHANGED backoff
-      ELSE chan' = c1 /\ UNCHANGED <<mesh, fanout, backoff>>
+      ELSE chan' = c1 /\ pend' = pa /\ UNCHANGED <<mesh, fanout, backoff>>
 
 \* n stops being interested: announce, then (gossipsub) leave: PRUNE every mesh member with the
 \* unsubscribe backoff and remember it ourselves
 CeaseInterest(n) ==
-    LET c1 == SendTo(chan, n, Peers(n), Pkt("UNSUB", {})) IN
+    \E F \in FullChoices(n) : \E sp \in AnnounceSplits(n, F) :
+    LET c1 == SendTo(chan, n, sp[1], Pkt("UNSUB", {}))
+        pa == {<<n, p, "UNSUB">> : p \in sp[2]}
+    IN
     IF IsG(n)
-      THEN /\ chan' = SendTo(c1, n, mesh[n], Pkt("PRUNE", {UnsubBackoff}))
+      THEN /\ chan' = SendTo(c1, n, mesh[n] \ F, Pkt("PRUNE", {UnsubBackoff}))
+           /\ pend' = pa \cup {<<n, p, "PRUNE">> : p \in mesh[n] \cap F}
            /\ backoff' = [backoff EXCEPT ![n] = [p \in Nodes |-> IF p \in mesh[n] THEN BoSet(@[p], UnsubBackoff) ELSE @[p]]]
            /\ mesh' = [mesh EXCEPT ![n] = {}]
            /\ UNCHANGED fanout
-      ELSE chan' = c1 /\ UNCHANGED <<mesh, fanout, backoff>>
+      ELSE chan' = c1 /\ pend' = pa /\ UNCHANGED <<mesh, fanout, backoff>>
+
+\* a dropped RPC is retried: the announcement with the interest as it is NOW, GRAFT / PRUNE only if still current
+Retry(n, p, k) ==
+    /\ <<n, p, k>> \in pend
+    /\ pend' = pend \ {<<n, p, k>>}
+    /\ LET send == CASE k = "SUB" -> Int(n) [] k = "UNSUB" -> ~Int(n)
+                      [] k = "GRAFT" -> Int(n) /\ p \in mesh[n] [] k = "PRUNE" -> ~(Int(n) /\ p \in mesh[n])
+       IN chan' = IF send /\ p \in Peers(n) THEN SendTo(chan, n, {p}, Pkt(k, IF k = "PRUNE" THEN {UnsubBackoff} ELSE {})) ELSE chan
+    /\ UNCHANGED <<kind, conn, subs, relays, known, mesh, fanout, backoff, seen, mcache, delivered, pub, batch, batchFresh,
+                   sincePub, tick, quietFor, hbTodo, nchurn>>
 
 ---------------------------------------------------------------------------
 (* churn: only between heartbeats, when the network is quiet, and not while a batch is under way;
@@ -146,7 +181,7 @@ Churned == /\ nchurn' = nchurn + 1 /\ quietFor' = 0 /\ batch' = {} /\ batchFresh
 Subscribe(n) ==
     /\ ChurnOK /\ subs[n] < MaxSubs
     /\ subs' = [subs EXCEPT ![n] = @ + 1]
-    /\ IF Int(n) THEN UNCHANGED <<chan, mesh, fanout, backoff>> ELSE BecomeInterested(n)
+    /\ IF Int(n) THEN UNCHANGED <<chan, mesh, fanout, backoff, pend>> ELSE BecomeInterested(n)
     /\ Churned /\ UNCHANGED <<conn, relays, known, delivered>>
 
 Cancel(n) ==
@@ -154,19 +189,19 @@ Cancel(n) ==
     /\ subs' = [subs EXCEPT ![n] = @ - 1]
     \* the subscription object is gone; a later Subscribe creates a fresh one
     /\ delivered' = [delivered EXCEPT ![n] = [m \in Msgs |-> [@[m] EXCEPT ![subs[n]] = 0]]]
-    /\ IF subs[n] = 1 /\ relays[n] = 0 THEN CeaseInterest(n) ELSE UNCHANGED <<chan, mesh, fanout, backoff>>
+    /\ IF subs[n] = 1 /\ relays[n] = 0 THEN CeaseInterest(n) ELSE UNCHANGED <<chan, mesh, fanout, backoff, pend>>
     /\ Churned /\ UNCHANGED <<conn, relays, known>>
 
 Relay(n) ==
     /\ ChurnOK /\ relays[n] < MaxRelays
     /\ relays' = [relays EXCEPT ![n] = @ + 1]
-    /\ IF Int(n) THEN UNCHANGED <<chan, mesh, fanout, backoff>> ELSE BecomeInterested(n)
+    /\ IF Int(n) THEN UNCHANGED <<chan, mesh, fanout, backoff, pend>> ELSE BecomeInterested(n)
     /\ Churned /\ UNCHANGED <<conn, subs, known, delivered>>
 
 Unrelay(n) ==
     /\ ChurnOK /\ relays[n] > 0
     /\ relays' = [relays EXCEPT ![n] = @ - 1]
-    /\ IF relays[n] = 1 /\ subs[n] = 0 THEN CeaseInterest(n) ELSE UNCHANGED <<chan, mesh, fanout, backoff>>
+    /\ IF relays[n] = 1 /\ subs[n] = 0 THEN CeaseInterest(n) ELSE UNCHANGED <<chan, mesh, fanout, backoff, pend>>
     /\ Churned /\ UNCHANGED <<conn, subs, known, delivered>>
 
 \* a new connection: both sides open their stream and send the hello packet (all current interest)
@@ -176,7 +211,7 @@ Connect(a, b) ==
     /\ conn' = conn \cup {{a, b}}
     /\ chan' = [chan EXCEPT ![<<a, b>>] = IF Hello(a) THEN <<Pkt("SUB", {})>> ELSE <<>>,
                             ![<<b, a>>] = IF Hello(b) THEN <<Pkt("SUB", {})>> ELSE <<>>]
-    /\ Churned /\ UNCHANGED <<subs, relays, known, mesh, fanout, backoff, delivered>>
+    /\ Churned /\ UNCHANGED <<subs, relays, known, mesh, fanout, backoff, delivered, pend>>
 
 \* the whole connection goes away: handleDeadPeers + OnClosedOutboundStream on both sides
 \* (topics, mesh, fanout forget the peer; backoff entries stay)
@@ -186,7 +221,7 @@ Disconnect(a, b) ==
     /\ known' = [known EXCEPT ![a] = @ \ {b}, ![b] = @ \ {a}]
     /\ mesh' = [mesh EXCEPT ![a] = @ \ {b}, ![b] = @ \ {a}]
     /\ fanout' = [fanout EXCEPT ![a] = @ \ {b}, ![b] = @ \ {a}]
-    /\ Churned /\ UNCHANGED <<subs, relays, chan, backoff, delivered>>
+    /\ Churned /\ UNCHANGED <<subs, relays, chan, backoff, delivered, pend>>
 
 ---------------------------------------------------------------------------
 (* publishing and forwarding *)
@@ -224,7 +259,7 @@ Publish(n) ==
                    THEN SubsetsOfSize(GPeers(n), Min(D, Cardinality(GPeers(n)))) ELSE {fanout[n]}) :
          /\ fanout' = [fanout EXCEPT ![n] = IF IsG(n) /\ ~Int(n) THEN F ELSE @]
          /\ chan' = SendTo(chan, n, Targets(n, n, n, F), Pkt("MSG", {id}))
-    /\ UNCHANGED <<kind, conn, subs, relays, known, mesh, backoff, tick, quietFor, hbTodo, nchurn>>
+    /\ UNCHANGED <<kind, conn, subs, relays, known, mesh, backoff, tick, quietFor, hbTodo, nchurn, pend>>
 
 \* one packet from m is handled by n (handleIncomingRPC + router.HandleRPC)
 Recv(n, m) ==
@@ -290,7 +325,7 @@ Recv(n, m) ==
                  /\ chan' = Fwd(c0, new)
                  /\ UNCHANGED <<known, mesh, backoff>>
     /\ batchFresh' = FALSE
-    /\ UNCHANGED <<kind, conn, subs, relays, fanout, pub, batch, sincePub, tick, quietFor, hbTodo, nchurn>>
+    /\ UNCHANGED <<kind, conn, subs, relays, fanout, pub, batch, sincePub, tick, quietFor, hbTodo, nchurn, pend>>
 
 ---------------------------------------------------------------------------
 (* time *)
@@ -303,7 +338,7 @@ Tick ==
     /\ backoff' = [n \in Nodes |-> [p \in Nodes |-> IF backoff[n][p] > 1 THEN backoff[n][p] - 1 ELSE backoff[n][p]]]
     /\ hbTodo' = {n \in Nodes : IsG(n)}
     /\ batchFresh' = FALSE
-    /\ UNCHANGED <<kind, conn, subs, relays, known, chan, mesh, fanout, seen, mcache, delivered, pub, batch, nchurn>>
+    /\ UNCHANGED <<kind, conn, subs, relays, known, chan, mesh, fanout, seen, mcache, delivered, pub, batch, nchurn, pend>>
 
 GossipIds(n) == {i \in Msgs : mcache[n][i] > HistoryLen - HistoryGossip}
 
@@ -344,10 +379,11 @@ Heartbeat(n) ==
            ELSE /\ backoff' = [backoff EXCEPT ![n] = bo1] /\ UNCHANGED <<chan, mesh, fanout>>
     /\ mcache' = [mcache EXCEPT ![n] = [i \in Msgs |-> IF @[i] > 0 THEN @[i] - 1 ELSE 0]]
     /\ hbTodo' = hbTodo \ {n}
-    /\ UNCHANGED <<kind, conn, subs, relays, known, seen, delivered, pub, batch, batchFresh, sincePub, tick, quietFor, nchurn>>
+    /\ UNCHANGED <<kind, conn, subs, relays, known, seen, delivered, pub, batch, batchFresh, sincePub, tick, quietFor, nchurn, pend>>
 
 Next == \/ \E n \in Nodes : Subscribe(n) \/ Cancel(n) \/ Relay(n) \/ Unrelay(n) \/ Publish(n) \/ Heartbeat(n)
         \/ \E a, b \in Nodes : Connect(a, b) \/ Disconnect(a, b) \/ Recv(a, b)
+        \/ \E a, b \in Nodes, k \in {"SUB", "UNSUB", "GRAFT", "PRUNE"} : Retry(a, b, k)
         \/ Tick
 
 Spec == Init /\ [][Next]_vars
